@@ -2029,12 +2029,12 @@ impl Parser {
                 tag = Some(self.parse_simple_stmt()?);
             }
 
+            // a second statement can only follow a semicolon (`switch a b {}` dropped a)
             if self.skipped(Operator::SemiColon)? {
                 init = tag.take();
-            }
-
-            if self.current_not(Operator::BraceLeft) {
-                tag = Some(self.parse_simple_stmt()?);
+                if self.current_not(Operator::BraceLeft) {
+                    tag = Some(self.parse_simple_stmt()?);
+                }
             }
         };
 
